@@ -71,6 +71,11 @@ CHECKS = {
    "After every step get/get_by/key_for/aliases_for/len/peers for every peer and key must equal the model; every broadcast must deliver exactly one notify (path, body, format) to each present peer and report one result per present peer, with refusing sinks; concurrent 4-thread histories plus a final full observation must be linearizable.",
    "insert only for absent ids (documented precondition). Interleavings sampled; each observed history decided exhaustively.",
    "DESIGN.md §4 C18"),
+ "C19": ("fault_enumeration",
+   "enumerated per-attempt outcome sequences (exhaustive in thorough, all sequences of length <=2 plus random in quick) against a scripted fake node switched from the verif-hooks attempt probe; attempt-history oracle",
+   "For every generated sequence of per-attempt outcomes over the seven-outcome alphabet and max_attempts 1..3, on Fleet and AsyncFleet: attempts (counted by the probe, refused ones included) never exceed max_attempts, no attempt follows a reply, the call reports that reply (value or application error) or an error when none arrived, and once the node is healthy again a call succeeds by the second try at the latest; broadcast addresses exactly the nodes carrying all requested tags (all 8 tag subsets x 4 assignments).",
+   "Attempt counting and node switching rely on the verif-hooks probe at the start of each attempt; malformed-reply retry not asserted.",
+   "DESIGN.md §4 C19"),
 }
 
 NOT_YET = "check not built yet in this revision (work in progress; see DESIGN.md §4 for the planned design)"
